@@ -79,6 +79,19 @@ theorem flip2_spec (i j k : Nat) (hij : i < j) (hj : j < 112) (hk : k < 112) :
           rw [this, List.getElem?_cons_succ, List.getElem?_replicate]
           simp [h2, h4]; omega
 
+/-! ## 0. The specification itself -/
+
+/-- `polyMod` (24-bit register, generator without its leading term) *is* schoolbook long
+    division of the bit string by the full 25-bit generator 0x1FFF409 on plain numbers
+    (`polyModNat`: bring down a bit; if the degree-24 coefficient is set, XOR the generator). -/
+theorem spec_is_long_division (bs : List Bool) : polyModNat bs = (polyMod bs).toNat :=
+  polyModNat_eq bs
+
+/-- … so, in the terms of the standard: the checksum of every frame is its remainder -/
+theorem checksum_eq_long_division (frame : List Nat) (hn : 3 ≤ frame.length) (hb : Bytes frame) :
+    modesChecksum frame (8 * frame.length) = .ok (polyModNat (bits frame)) := by
+  rw [spec_is_long_division]; exact modesChecksum_eq frame hn hb
+
 /-! ## 1. The table -/
 
 /-- All 256 rows of `CRC_TABLE` are the parities `(i·x^24) mod G` of the single bytes.
